@@ -34,6 +34,23 @@ pub trait EnvDispatch {
 }
 pub struct TheEnv;
 
+/// Native replay of a proof harness by name (implemented next to the harnesses, generated table).
+pub trait ReplayDispatch {
+    fn run(name: &str) -> bool;
+}
+
+/// Run harness `name` natively on the REAL code with every nondeterministic choice taken from `vals`
+/// (the values Kani's concrete playback reported, in call order).  A violated obligation panics with
+/// the same message the verifier reported.  Returns false if the harness is unknown.
+#[cfg(not(kani))]
+pub fn replay(name: &str, vals: Vec<u64>) -> bool {
+    unsafe {
+        rt::RECORDED = vals;
+        rt::RECORDED_POS = 0;
+    }
+    <TheEnv as ReplayDispatch>::run(name)
+}
+
 pub mod rt {
     use super::*;
 
@@ -49,6 +66,32 @@ pub mod rt {
     pub static mut SLEEPS: usize = 0;
     /// number of shared accesses performed by the code under proof (T layer step counter)
     pub static mut ACCESSES: usize = 0;
+    /// watched addresses (atomics written / mutexes locked by the code under proof): the access count at
+    /// the last write / lock, 0 = never.  Used to order "state change" before "notification" (C14).
+    pub static mut WATCH_ADDR: [usize; 4] = [0; 4];
+    pub static mut WATCH_STAMP: [usize; 4] = [0; 4];
+    pub static mut WATCH_HITS: [usize; 4] = [0; 4];
+
+    #[inline(always)]
+    pub fn note(addr: usize) {
+        unsafe {
+            if IN_ENV {
+                return;
+            }
+            if WATCH_ADDR[0] != 0 && WATCH_ADDR[0] == addr {
+                WATCH_STAMP[0] = ACCESSES;
+                WATCH_HITS[0] += 1;
+            }
+            if WATCH_ADDR[1] != 0 && WATCH_ADDR[1] == addr {
+                WATCH_STAMP[1] = ACCESSES;
+                WATCH_HITS[1] += 1;
+            }
+            if WATCH_ADDR[2] != 0 && WATCH_ADDR[2] == addr {
+                WATCH_STAMP[2] = ACCESSES;
+                WATCH_HITS[2] += 1;
+            }
+        }
+    }
 
     #[inline(always)]
     pub fn before(kind: u8, addr: usize) {
@@ -67,6 +110,7 @@ pub mod rt {
 
     #[inline(always)]
     pub fn wrote(kind: u8, addr: usize, old: usize, new: usize) {
+        note(addr);
         unsafe {
             if IN_ENV {
                 return;
@@ -407,6 +451,7 @@ pub mod parking_lot {
             }
             pub fn lock(&self) -> MutexGuard<'_, T> {
                 rt::before(K_LOCK, self as *const _ as usize);
+                rt::note(self as *const _ as usize);
                 unsafe {
                     rt::LOCKS_TAKEN = rt::LOCKS_TAKEN.wrapping_add(1);
                 }
@@ -602,7 +647,10 @@ pub fn on_deallocate(addr: usize, num: usize, size: usize) {
 // harness payload with a drop ledger (C01, C04, C05)
 
 pub mod pay {
+    #[cfg(kani)]
     pub const MAXSER: usize = 24;
+    #[cfg(not(kani))]
+    pub const MAXSER: usize = 512;
     /// per-instance state: 0 = never created, 1 = live, 2 = dropped
     pub static mut STATE: [u8; MAXSER] = [0; MAXSER];
     pub static mut NEXT: usize = 0;
@@ -679,5 +727,21 @@ pub mod pay {
             }
             n
         }
+    }
+}
+
+// ---------------------------------------------------------------------------------------------
+// a do-nothing wait strategy for end-to-end harnesses that go through the public constructors
+
+pub struct EWait {
+    pub notify: bool,
+}
+impl crate::wait::Wait for EWait {
+    fn wait(&self, _seq: usize, _at: &AtomicUsize, _wc: &AtomicUsize) {
+        panic!("end-to-end harness: a blocking wait was entered");
+    }
+    fn notify(&self) {}
+    fn needs_notify(&self) -> bool {
+        self.notify
     }
 }
